@@ -3,7 +3,7 @@ import json
 from .. import gen
 from . import seqprop
 
-GEN = ['JsonUtilGen.v', 'Sites.v', 'Decisions.v', 'BookGen.v', 'OpsGen.v']
+GEN = ['JsonUtilGen.v', 'Sites.v', 'Decisions.v', 'BookGen.v', 'OpsGen.v', 'DriverGen.v']
 DECISIONS = ['FileBuilder._apply_cached_suboperations', 'FileBuilder._assert_build_file_call_valid', 'FileBuilder._build_file', 'FileBuilder._dirs_to_make', 'FileBuilder._handle_error_building_file', 'FileBuilder._make_dirs', 'FileBuilder._make_room', 'FileBuilder._prepare_file_creation', 'FileBuilder._rebuild_file', 'FileBuilder._subbuild', 'FileBuilder.build_file_with_comparison', 'FileBuilder.subbuild']
 SITES = True
 ORDER = False
